@@ -603,6 +603,7 @@ func (c *Compiler) compileWhileStatement(stmt *ast.WhileStatement) error {
 func (c *Compiler) compileValidationStatement(stmt *ast.ValidationStatement) error {
 	// For now, validation statements are ignored in compiled mode
 	// In production, you might want to compile them as actual validation calls
+	c.limitations = append(c.limitations, Limitation{Construct: "validation ? " + stmt.Call.Name + "()", Callee: stmt.Call.Name})
 	return nil
 }
 
